@@ -780,7 +780,12 @@ func (l *Loader) mergeResult(fetchItem *FetchItem, res *result, items []*astjson
 			// we don't consider it as an error. Note: it is not compliant with graphql spec.
 			if hasErrors {
 				if l.validateRequiredExternalFields && res.postProcessing.SelectResponseDataPath != nil {
-					taintedIndices = getTaintedIndices(res.taintInfo(fetchItem), res.errorPathRoot(), responseData, responseErrors)
+					taintData := responseData
+					// A single entity fetch selects data._entities.0, but the error paths still start at _entities.
+					if res.multi == nil && fetchItem.Fetch != nil && fetchItem.Fetch.FetchKind() == FetchKindEntity {
+						taintData = response.Get("data", "_entities")
+					}
+					taintedIndices = getTaintedIndices(res.taintInfo(fetchItem), res.errorPathRoot(), taintData, responseErrors)
 				}
 				if len(taintedIndices) > 0 {
 					// Override errors with generic error about missing deps.
